@@ -36,6 +36,10 @@ inductive Val where
   | none
   | ok (x : Val)
   | err (x : Val)
+  /-- a value of a type outside the nested built-in ones whose own `ToString.str` yields `text`: a float
+      (`string_from_float` = Rust `f64::to_string`, trusted), a user type or a `channel<T>` with a user
+      `implement ToString` — what matters here is how the built-in containers splice that text in -/
+  | ext (text : String)
   deriving Inhabited
 
 /-- `string_from_int`: decimal text of a 64-bit integer (trusted to be `i64::to_string`) -/
@@ -56,6 +60,7 @@ mutual
     | .none => "none"
     | .ok x => ("ok(" ++ strV x) ++ ")"
     | .err x => ("err(" ++ strV x) ++ ")"
+    | .ext t => t
   /-- `array_to_string_helper(arr, idx)`; the argument is the suffix `arr[idx ..]`, so `idx == l` is the
       empty suffix and `idx == l - 1` the one-element suffix -/
   def helper : List Val → String
